@@ -7,6 +7,7 @@ import TSSVerif.Driver.BoxConc
 import TSSVerif.Driver.Adapter
 import TSSVerif.Driver.Translate
 import TSSVerif.Driver.Orch
+import TSSVerif.Driver.Disc
 /-!
 Line-protocol driver: one operation per input line, one answer per output line. Imports `Model/`
 and `Driver/` only (core Lean), so it links as a native executable; the definitions it runs are the
@@ -19,6 +20,7 @@ structure DState where
   box : Option BoxD := none
   boxc : Option BoxCD := none
   orch : OrchD := {}
+  disc : DiscD := {}
 
 def step (st : DState) (line : String) : DState × String :=
   let toks := (line.splitOn " ").filter (· ≠ "")
@@ -27,6 +29,10 @@ def step (st : DState) (line : String) : DState × String :=
   | "orch" :: rest =>
     match orchOp st.orch rest with
     | some (d, o) => ({ st with orch := d }, o)
+    | none => (st, "bad-op")
+  | "ds" :: rest =>
+    match discOp st.disc rest with
+    | some (d, o) => ({ st with disc := d }, o)
     | none => (st, "bad-op")
   | "tr" :: rest => (st, (trOp rest).getD "bad-op")
   | "adp" :: rest => (st, (adpOp rest).getD "bad-op")
